@@ -213,6 +213,7 @@ func analyseMethod(c *core.Ctx, s *c20side, m *types.Func) {
 	isReset := s.resetOK[m.Name()]
 	var sticky, count, errchk, zero []string
 	nPre, nOK, nErr := 0, 0, 0
+	okWithEffect, anyEffect := false, false
 	for _, p := range ps {
 		if p.Aborted != "" && p.Aborted != "panic" {
 			c.Unknown("C20-STICKY", key, pos, "path not analysable: "+p.Aborted)
@@ -245,9 +246,15 @@ func analyseMethod(c *core.Ctx, s *c20side, m *types.Func) {
 			}
 		default:
 			nOK++
+			if len(f.effects) > 0 {
+				okWithEffect = true
+			}
 			if s.cntField != "" && !isReset && !f.written.equal(f.appended) {
 				count = append(count, fmt.Sprintf("error-free path appends %s octets but adds %s to the byte counter", f.appended, f.written))
 			}
+		}
+		if len(f.effects) > 0 {
+			anyEffect = true
 		}
 		for v, checked := range f.errChecks {
 			if !checked {
@@ -258,6 +265,15 @@ func analyseMethod(c *core.Ctx, s *c20side, m *types.Func) {
 			if !checked && !f.errSet && !f.preErr {
 				errchk = append(errchk, "count returned by "+callName(v)+" is not compared with the requested length")
 			}
+		}
+	}
+	// a primitive does its work on some error-free path, and looks at the recorded error before it does
+	if (strings.HasPrefix(m.Name(), "Write") || strings.HasPrefix(m.Name(), "Read")) && m.Exported() && !isReset {
+		if !okWithEffect {
+			sticky = append(sticky, "on no error-free path does the primitive touch the buffer: it does nothing, or records an error every time")
+		}
+		if anyEffect && nPre == 0 {
+			sticky = append(sticky, "the primitive never finds the recorded error set before it touches the buffer: it proceeds after an earlier failure")
 		}
 	}
 	detail := fmt.Sprintf("%d paths (%d entered with error, %d record an error, %d error-free)", len(ps), nPre, nErr, nOK)
@@ -275,6 +291,48 @@ func analyseMethod(c *core.Ctx, s *c20side, m *types.Func) {
 	}
 	report("C20-ERRCHK", errchk)
 	report("C20-ZERO", zero)
+	// Reader.Bytes: what is left of the input. Where the error was not found set it answers the buffer's own Bytes();
+	// an empty answer is given only where the error was found set (the optional-parameter parsers of SMGP work on it)
+	if s.typeName == "Reader" && m.Name() == "Bytes" {
+		var probs []string
+		rest := 0
+		for _, p := range ps {
+			f := summarise(c, s, recv, p)
+			if len(p.Results) != 1 {
+				continue
+			}
+			isRest := false
+			if call, ok := p.Results[0].(*ssa.Call); ok && call.Call.StaticCallee() != nil && call.Call.StaticCallee().Name() == "Bytes" && len(call.Call.Args) == 1 {
+				if u, isU := call.Call.Args[0].(*ssa.UnOp); isU {
+					if _, fld, okF := paths.FieldOf(u); okF && fld.Name() == s.bufField {
+						isRest = true
+					}
+				}
+			}
+			switch {
+			case isRest:
+				rest++
+				if f.preErr {
+					probs = append(probs, "the unread octets are answered although the error is set")
+				}
+			case !f.preErr:
+				probs = append(probs, "a path on which the error was not found set answers something other than the unread octets ("+describeValue(p.Results[0])+")")
+			}
+		}
+		if rest == 0 {
+			probs = append(probs, "no path answers the unread octets of the buffer")
+		}
+		sawErr := false
+		for _, p := range ps {
+			if summarise(c, s, recv, p).preErr {
+				sawErr = true
+			}
+		}
+		if !sawErr {
+			probs = append(probs, "the recorded error is never looked at: after a failed read the leftovers are handed on as if they were the rest of the PDU")
+		}
+		c.Decide(len(probs) == 0, "C20-SHAPE", key+"#rest", pos, "answers the unread octets unless the error is set", strings.Join(uniq(probs), "; "))
+	}
 	if s.typeName == "Writer" && (m.Name() == "Bytes" || m.Name() == "BytesWithLength" || m.Name() == "Len") {
 		terminalRule(c, s, m, fn, ps, recv)
 	}
@@ -874,6 +932,14 @@ func terminalRule(c *core.Ctx, s *c20side, m *types.Func, fn *ssa.Function, ps [
 	key := "packet.Writer." + m.Name()
 	pos := c.Prog.Pos(m.Pos())
 	var probs []string
+	anyPre := false
+	defer func() {
+		if !anyPre {
+			c.Fail("C20-TERMINAL", key+"#looks-at-error", pos, m.Name()+" never finds the recorded error set: after a failed write it answers the partial image as if nothing had happened")
+		} else {
+			c.OK("C20-TERMINAL", key+"#looks-at-error", pos, "the recorded error is tested first")
+		}
+	}()
 	for _, p := range ps {
 		pre := false
 		for _, e := range p.Events {
@@ -885,6 +951,9 @@ func terminalRule(c *core.Ctx, s *c20side, m *types.Func, fn *ssa.Function, ps [
 				}
 				break
 			}
+		}
+		if pre {
+			anyPre = true
 		}
 		if m.Name() == "Len" {
 			if pre && (len(p.Results) != 1 || !isZeroValue(p.Results[0], nil)) {
